@@ -311,13 +311,17 @@ def run(chk: common.Check) -> None:
         ta.append([rng.randint(0, 9) for _ in range(rng.randint(0, 6))])
     ta_msgs = []
 
+    # items of any kind are items: None, falsy values, exceptions as values, nested iterables (oracle only: the model's items are numbers)
+    ta_odd: list = [[1, None, 2, 3], [None], [None, None], [0, False, '', None, [], ()], [ValueError('as a value'), 1], [[1, 2], None, {}],
+                    [StopIteration(), 5], [float('inf'), -1, None]]
+
     async def ta_main() -> None:
         from nextline.utils.aio import to_aiter
-        for l in ta:
+        for l in ta + ta_odd:
             for thread in (False, True):
                 got = [x async for x in to_aiter(iter(l), thread=thread)]
-                if got != l:
-                    ta_msgs.append(f'to_aiter(thread={thread}) over {l} yielded {got}')
+                if len(got) != len(l) or any(a is not b and a != b for a, b in zip(got, l)):
+                    ta_msgs.append(f'to_aiter(thread={thread}) over {l!r} yielded {got!r}')
     asyncio.new_event_loop().run_until_complete(ta_main())
     model_out = None
     model_err = None
@@ -352,7 +356,7 @@ def run(chk: common.Check) -> None:
                 rejected.append((('toaiter', l), [], 0, None))
     for m in ta_msgs:
         oracle_fail.append((('toaiter',), [], [m], None))
-    chk.cov.count('kinds', 'to_aiter', len(ta) * 2)
+    chk.cov.count('kinds', 'to_aiter', (len(ta) + len(ta_odd)) * 2)
     chk.cov.traces_validated = len(rows) if model_out is not None else 0
     if rows:
         chk.cov.sample({'config': rows[0][0], 'observed_labels': rows[0][1][:40]})
